@@ -18,7 +18,7 @@ def wIn : WPc → Bool
 /-- in a factory pool the replace thread is alive and has no stop token -/
 def rCall : CPc → Bool
   | .fInitSet | .wrSending | .wrDataCnt | .fStart | .rdSending | .rdDataCnt | .qsize1 | .lockAcq | .qsize2 | .getNowait
-  | .lockRel | .getBlock | .flowClear | .flowIsSet | .flowSet | .fStopSet | .fJoin | .rPutNone => true
+  | .lockRel | .getBlock | .flowClear | .flowIsSet | .flowSet | .fStopSet | .fJoin | .rPutNone | .midReady _ _ => true
   | _ => false
 
 def rStopping : CPc → Bool
@@ -120,6 +120,12 @@ structure LiveInv (s : St) : Prop where
   rp : ReplI s
   cs : ConsI s
   ct : CntI s
+
+/-- the mid-call `until_all_ready()`: the worker the consumer is about to wait for exists; flow control is engaged only in
+an ordered call (kept beside `LiveInv`: it talks about the `midReady` pcs only) -/
+structure MidI (s : St) : Prop where
+  ex : ∀ i wid, s.cpc = .midReady i wid → ∃ w ∈ s.workers, w.wid = wid
+  flow : ∀ i wid, s.cpc = .midReady i wid → s.fRun = false → ∃ c, s.cur = some c ∧ c.ordered = true
 
 /-! ### basic facts -/
 
